@@ -14,6 +14,7 @@ RULE = ("small trees x every consulted file assigned {matching, foreign} owner a
         "subset of {required owner, required group, no symlinks} (the setters called in any order, the symbolic-link rule also set and lifted again or stated as the default) x read entry points (single file, layered, two-directory, history); "
         "the result is compared with: code of the first offending consulted file and no content, or the unrestricted result; after the "
         "reset call the read must equal the unrestricted one; non-trivial = a restriction is active and a file consulted; "
+        "plus relative names with `..` behind a symbolic link to a directory (the file checked must be the file read); "
         "distinct by scenario text.  Runs as root (chown).")
 ASSUMPTIONS = ["the check runs as root so that files can be given foreign owners"]
 UID, GID = 0, 0
@@ -102,6 +103,7 @@ def make(rng, sid):
 def scenarios(tier, rng):
     n = 1500 if tier == "quick" else 50000
     out = [make(rng, "g%d" % i) for i in range(n)]
+    out += dotdot_scenarios(rng, 60 if tier == "quick" else 600)
     # single file, every combination
     i = 0
     for u in (UID, FUID):
@@ -137,6 +139,47 @@ def scenarios(tier, rng):
     return out
 
 
+def dotdot_scenarios(rng, n):
+    """relative names with `..` directly behind a symbolic link to a directory: the file the kernel resolves the name to is
+    the one the checks look at, and it must also be the one that is read - not the file a lexical clean-up of the name
+    would give.  (The model's file system resolves names lexically and has no links to directories, so these scenarios are
+    judged on the implementation only.)"""
+    out = []
+    for i in range(n):
+        s = Scenario("dd%d" % i, {"dotdot": True, "impl_only": True})
+        s.mkdir(b"/base/releases/v2")
+        s.link(b"/base/current", b"releases/v2")
+        kind = rng.choice(["owner", "group", "link"])
+        entry = rng.choice(["RF", "RD", "RDdrop"])
+        good = (b"/base/releases/app.conf", b"/base/releases/usr/app.conf", b"/base/releases/etc/app.conf.d/a.conf")
+        evil = (b"/base/app.conf", b"/base/usr/app.conf", b"/base/etc/app.conf.d/a.conf")
+        k = {"RF": 0, "RD": 1, "RDdrop": 2}[entry]
+        s.file(good[k], b"key=trusted\n", UID, GID)
+        if entry == "RDdrop":
+            s.file(b"/base/releases/usr/app.conf", b"m=1\n", UID, GID)
+            s.file(b"/base/usr/app.conf", b"m=1\n", UID, GID)
+        if kind == "link":
+            s.file(b"/store/evil", b"key=evil\n", UID, GID)
+            s.link(evil[k], b"/store/evil", UID, GID)
+            s.add("G", "nosymlink", 1)
+        elif kind == "owner":
+            s.file(evil[k], b"key=evil\n", FUID, GID)
+            s.add("G", "owner", UID)
+        else:
+            s.file(evil[k], b"key=evil\n", UID, FGID)
+            s.add("G", "group", GID)
+        s.add("CD", h(b"/base"))
+        if entry == "RF":
+            s.add("RF", 0, h(b"current/../app.conf"), h(b"="), h(b"#"))
+        else:
+            s.add("RD", 0, h(b"current/../usr"), h(b"current/../etc"), h(b"app"), h(b"conf"), h(b"="), h(b"#"))
+        s.add("GET", 0, "str", "-", h(b"key"))
+        s.meta["entry"] = entry
+        s.meta["kind"] = kind
+        out.append(s)
+    return out
+
+
 def offence(attr, ro, rg, rl, perms=None, isdir=False):
     u, g, link = attr
     if rl and link:
@@ -157,6 +200,12 @@ def offence(attr, ro, rg, rl, perms=None, isdir=False):
 def oracle(s, lines):
     m = s.meta
     res = [l for l in lines if l.startswith(("rf ", "rc ", "rd ", "rh "))]
+    if m.get("dotdot"):
+        want = [("rf" if m["entry"] == "RF" else "rd") + " E0 obj", "get E0 " + h(b"trusted")]
+        if lines[:2] != want:
+            return ("%s of a relative name with `..` behind a symbolic link to a directory under the %s rule: %r - the file the "
+                    "name resolves to satisfies the rule and holds key=trusted, a file that violates the rule holds key=evil" % (m["entry"], m["kind"], lines[:2]))
+        return None
     if "single" in m:
         u, g, link, ro, rg, rl = m["single"]
         code = offence((u, g, link), ro, rg, rl)
@@ -217,6 +266,8 @@ def nontrivial(s, lines):
     m = s.meta
     if "single" in m:
         return ("single",) + m["single"]
+    if m.get("dotdot"):
+        return tuple(s.lines)
     if "restr" not in m or not any(m["restr"].values()):
         return None
     return tuple(s.lines)
@@ -226,6 +277,8 @@ def histogram(s, lines):
     m = s.meta
     if "single" in m:
         return ["single_file"]
+    if m.get("dotdot"):
+        return ["dotdot_behind_directory_link_" + m["entry"] + "_" + m["kind"]]
     if "restr" not in m:
         return ["corpus"]
     ks = ["entry_" + m["entry"], "restr_" + "".join(k[0] for k, v in sorted(m["restr"].items()) if v), "relative_dirs" if m.get("relative") else "absolute_dirs"]
